@@ -134,3 +134,117 @@ package app
 //@   invariant@1 forall j :: 0 <= j && j <= rangeindex ==> flagsMonotone(app, j)
 //@   invariant@2 numVotes == cntSeen(mapdom(app.BlocksSeen), mapvals(app.BlocksSeen), elemsof(app.Configs[allowanceConfigIndex].Keypers), offof(app.Configs[allowanceConfigIndex].Keypers), rangeindex + 1, config.ActivationBlockNumber)
 //@   invariant@2 numVotes <= rangeindex + 1
+//@
+//@ // ---- Voting (C09 determinism, C11 governance) -----------------------------------------------------------
+//@ // representation invariant of a Voting: every vote names an existing candidate
+//@ pred votingInv(v) := v != nil && v.Votes != nil && (forall a Arr :: has(v.Votes, a) ==> (0 <= v.Votes[a] && v.Votes[a] < len(v.Candidates)))
+//@
+//@ // C09: the outcome is a function of the votes, not of Go's map iteration order: the histogram loop is
+//@ // order independent (commutativity obligation), and the winner is the lowest candidate index with
+//@ // enough votes.
+//@ func (*Voting).outcomeIndex
+//@   requires votingInv(v)
+//@   opt order-indep = check
+//@   ensures ret1 ==> (0 <= ret0 && ret0 < len(v.Candidates))
+//@   ensures ret1 ==> (numVotes[ret0] > 0 && numVotes[ret0] >= numRequiredVotes)
+//@   ensures ret1 ==> (forall j :: 0 <= j && j < ret0 ==> !(pw(numVotes, j) > 0 && pw(numVotes, j) >= numRequiredVotes))
+//@   ensures !ret1 ==> (ret0 == 0 - 1 && (forall j :: 0 <= j && j < len(v.Candidates) ==> !(pw(numVotes, j) > 0 && pw(numVotes, j) >= numRequiredVotes)))
+//@   invariant@1 numVotes != nil && fresh(numVotes)
+//@   invariant@2 forall j :: 0 <= j && j <= rangeindex ==> !(pw(numVotes, j) > 0 && pw(numVotes, j) >= numRequiredVotes)
+//@
+//@ // ---- transactions: decoding, replay protection (C10, C11) -------------------------------------------------
+//@ pred ntInv(t) := t != nil && t.RandomNonces != nil && (forall a Arr :: has(t.RandomNonces, a) ==> t.RandomNonces[a] != nil) && (forall a Arr, b Arr :: (has(t.RandomNonces, a) && has(t.RandomNonces, b) && a != b) ==> t.RandomNonces[a] != t.RandomNonces[b])
+//@ pred nonceUsed(t, a, n) := has(t.RandomNonces, a) && has(t.RandomNonces[a], n) && t.RandomNonces[a][n]
+//@ func (*NonceTracker).Check
+//@   requires ntInv(t)
+//@   ensures ret0 <==> !nonceUsed(t, sender, randomNonce)
+//@ func (*NonceTracker).Add
+//@   requires ntInv(t)
+//@   assigns mapof(map[common.Address]map[uint64]bool), mapof(map[uint64]bool)
+//@   ensures ntInv(t) && nonceUsed(t, sender, randomNonce)
+//@   ensures forall a Arr, n :: old(nonceUsed(t, a, n)) ==> nonceUsed(t, a, n)
+//@   ensures forall a Arr, n :: (nonceUsed(t, a, n) && !old(nonceUsed(t, a, n))) ==> (a == sender && n == randomNonce)
+//@
+//@ func (ShutterApp).decodeTx
+//@   ensures err == nil ==> msg != nil
+//@
+//@ // ---- governance state machine (C10, C11) -----------------------------------------------------------------
+//@ // DKG bookkeeping: every instance is filed under its own eon number, and no eon number above the counter
+//@ // has been handed out
+//@ pred dkgFiled(app) := forall e :: has(app.DKGMap, e) ==> (e <= app.EONCounter && app.DKGMap[e] != nil && app.DKGMap[e].Eon == e)
+//@ pred dkgVotings(app) := forall e :: has(app.DKGMap, e) ==> votingInvD(app.DKGMap[e])
+//@ pred dkgInv(app) := app.DKGMap != nil && app.EONCounter < 18446744073709551615 && dkgFiled(app) && dkgVotings(app)
+//@ pred votingInvD(d) := d.SuccessVoting.Votes != nil && (forall a Arr :: has(d.SuccessVoting.Votes, a) ==> (0 <= d.SuccessVoting.Votes[a] && d.SuccessVoting.Votes[a] < len(d.SuccessVoting.Candidates)))
+//@ pred appInv(app) := appCfgInv(app) && len(app.Configs) >= 1 && dkgInv(app) && ntInv(app.NonceTracker) && app.CheckTxState != nil && votingInv(app.ConfigVoting)
+//@
+//@ func (*ShutterApp).LastConfig
+//@   requires app != nil && len(app.Configs) >= 1
+//@   ensures ret0 == app.Configs[len(app.Configs) - 1]
+//@
+//@ // every start of an eon takes a fresh, strictly larger number
+//@ func (*ShutterApp).StartDKG
+//@   requires app != nil && dkgInv(app) && app.EONCounter < 18446744073709551614
+//@   assigns app.ShutterApp.EONCounter, mapof(map[uint64]*app.DKGInstance)
+//@   ensures app.EONCounter == old(app.EONCounter) + 1 && !old(has(app.DKGMap, app.EONCounter + 1))
+//@   ensures ret0 != nil && fresh(ret0) && ret0.Eon == app.EONCounter && has(app.DKGMap, app.EONCounter) && app.DKGMap[app.EONCounter] == ret0
+//@   ensures ret0.Config.Threshold == config.Threshold && ret0.Config.KeyperConfigIndex == config.KeyperConfigIndex && ret0.Config.ActivationBlockNumber == config.ActivationBlockNumber
+//@   ensures forall e :: e != app.EONCounter ==> (has(app.DKGMap, e) == old(has(app.DKGMap, e)) && app.DKGMap[e] == old(app.DKGMap[e]))
+//@   ensures ret0.SuccessVoting.Votes != nil && len(ret0.SuccessVoting.Candidates) == 0 && (forall a Arr :: !has(ret0.SuccessVoting.Votes, a))
+//@   ensures dkgFiled(app)
+//@   ensures dkgVotings(app)
+//@
+//@ // one vote per sender per round: a second vote is refused and changes nothing
+//@ func (*Voting).AddVote
+//@   requires votingInv(v)
+//@   assigns mapof(map[common.Address]int), self.Candidates
+//@   ensures old(has(v.Votes, sender)) ==> (ret0 != nil && len(v.Candidates) == old(len(v.Candidates)) && (forall a Arr :: has(v.Votes, a) == old(has(v.Votes, a)) && v.Votes[a] == old(v.Votes[a])))
+//@   ensures !old(has(v.Votes, sender)) ==> (ret0 == nil && has(v.Votes, sender))
+//@   ensures forall a Arr :: a != sender ==> (has(v.Votes, a) == old(has(v.Votes, a)) && v.Votes[a] == old(v.Votes[a]))
+//@   ensures votingInv(v) && len(v.Candidates) >= old(len(v.Candidates)) && len(v.Candidates) <= old(len(v.Candidates)) + 1
+//@
+//@ func (*Voting).SetVote
+//@   requires votingInv(v)
+//@   assigns mapof(map[common.Address]int), self.Candidates
+//@   ensures has(v.Votes, sender) && votingInv(v)
+//@   ensures forall a Arr :: a != sender ==> (has(v.Votes, a) == old(has(v.Votes, a)) && v.Votes[a] == old(v.Votes[a]))
+//@   ensures len(v.Candidates) >= old(len(v.Candidates)) && len(v.Candidates) <= old(len(v.Candidates)) + 1
+//@   invariant forall a Arr :: has(v.Votes, a) == old(has(v.Votes, a))
+//@
+//@ func (*Voting).Outcome
+//@   requires votingInv(v)
+//@   ensures ret1 ==> (0 <= idx && idx < len(v.Candidates))
+//@
+//@ // a restart happens only for the newest eon and only on a failure outcome; it takes a fresh number
+//@ func (*ShutterApp).maybeStartEon
+//@   requires app != nil && dkgInv(app) && app.EONCounter < 18446744073709551614
+//@   assigns app.ShutterApp.EONCounter, mapof(map[uint64]*app.DKGInstance)
+//@   ensures ret1 ==> (eon == old(app.EONCounter) && old(has(app.DKGMap, eon)) && ok && !success)
+//@   ensures ret1 ==> (app.EONCounter == old(app.EONCounter) + 1 && ret0 != nil && ret0.Eon == app.EONCounter && !old(has(app.DKGMap, app.EONCounter + 1)))
+//@   ensures !ret1 ==> (app.EONCounter == old(app.EONCounter) && (forall e :: has(app.DKGMap, e) == old(has(app.DKGMap, e)) && app.DKGMap[e] == old(app.DKGMap[e])))
+//@   ensures dkgFiled(app)
+//@   ensures dkgVotings(app)
+//@
+//@ pred cfgOK(app, cfg) := cfgValid(cfg) && cfg.ActivationBlockNumber >= app.Configs[len(app.Configs) - 1].ActivationBlockNumber && cfg.KeyperConfigIndex > app.Configs[len(app.Configs) - 1].KeyperConfigIndex
+//@ // a configuration can be added iff it is valid, its index is strictly larger and its activation block not
+//@ // smaller than the newest one
+//@ func (*ShutterApp).checkConfig
+//@   requires app != nil && len(app.Configs) >= 1 && app.Configs[len(app.Configs) - 1] != nil && len(cfg.Keypers) <= 1048576
+//@   ensures ret0 == nil <==> cfgOK(app, cfg)
+//@
+//@ func (*ShutterApp).allowedToVoteOnConfigChanges
+//@   requires app != nil && len(app.Configs) >= 1 && app.Configs[len(app.Configs) - 1] != nil
+//@   ensures ret0 <==> isMember(app.Configs[len(app.Configs) - 1], sender)
+//@
+//@ func (*ShutterApp).isKeyper
+//@   requires app != nil && wfConfigs(app)
+//@   ensures ret0 <==> (exists i :: 0 <= i && i < len(app.Configs) && isMember(app.Configs[i], a))
+//@   invariant forall j :: 0 <= j && j <= rangeindex ==> !isMember(app.Configs[j], a)
+//@
+//@ pred configsUnchanged(app) := len(app.Configs) == old(len(app.Configs)) && (forall i :: 0 <= i && i < len(app.Configs) ==> app.Configs[i] == old(app.Configs[i]))
+//@ func (*ShutterApp).addConfig
+//@   requires app != nil && app.CheckTxState != nil && wfConfigs(app) && len(app.Configs) >= 1 && len(cfg.Keypers) <= 1048576
+//@   ensures ret0 == nil <==> old(cfgOK(app, cfg))
+//@   ensures ret0 != nil ==> configsUnchanged(app)
+//@   ensures ret0 == nil ==> (len(app.Configs) == old(len(app.Configs)) + 1 && (forall i :: 0 <= i && i < old(len(app.Configs)) ==> app.Configs[i] == old(app.Configs[i])))
+//@   ensures ret0 == nil ==> (app.Configs[len(app.Configs) - 1] != nil && fresh(app.Configs[len(app.Configs) - 1]) && app.Configs[len(app.Configs) - 1].KeyperConfigIndex == cfg.KeyperConfigIndex && app.Configs[len(app.Configs) - 1].Threshold == cfg.Threshold && app.Configs[len(app.Configs) - 1].ActivationBlockNumber == cfg.ActivationBlockNumber && len(app.Configs[len(app.Configs) - 1].Keypers) == len(cfg.Keypers))
+//@   assigns app.ShutterApp.Configs, app.CheckTxState.Members
